@@ -45,6 +45,9 @@ _TS_CONSTS = ("const TIMEOUT_MS = 30000;\nconst PI_APPROX = 3.14159;\nconst LIMI
               "export function wait(q: number): number {\n  return q * 250;\n}\n")
 _TS_DUP_CONST = "export const MAX_RETRY_COUNT = 17;\nexport function first() { return 1; }\n"
 AT_LIMIT = {
+    # an assignment whose value starts on the next line: a comment may be inserted between the two lines
+    "cqs-split-assignment.ts": ("typescript", "export class Repo {\n  refresh(id: string) {\n    const row =\n      this.load(id);\n    this.store(row);\n    return row;\n  }\n}\n",
+                                {"cqs": {"enabled": True}}),
     # locals belong to their function: giving the second function's accumulator the name used in the first changes nothing
     "concat-two-functions.py": ("python", "def one(xs):\n    out = ''\n    for x in xs:\n        out += str(x)\n    return out\n\n\n"
                                           "def two(pairs):\n    buf = '['\n    for i, x in enumerate(pairs):\n        buf += str(x) * i\n    return buf + ']'\n", None),
@@ -149,9 +152,10 @@ def h_edits(ctx):
     n = len(lines)
     cm = "#" if lang == "python" else "//"
     edit = ctx.pick("edit", ("insert-blank", "insert-indented-blank", "insert-comment", "insert-non-ascii-comment", "insert-comment-with-old-code", "insert-block-comment", "trailing-whitespace", "reindent-x2", "crlf", "bom",
-                             "append-code", "two-edits", "rename-locals"))
+                             "append-code", "two-edits", "rename-locals", "insert-comment-and-blank-inside-the-duplicate"))
     base = _lint(files, config)
     shift, with_col = None, True
+    dry_by_position = False
     new = None
     if edit in ("insert-blank", "insert-indented-blank", "insert-comment", "insert-non-ascii-comment", "insert-comment-with-old-code", "insert-block-comment", "two-edits"):
         q = ctx.pick("insert_before_line", tuple(range(1, n + 2)))
@@ -180,6 +184,16 @@ def h_edits(ctx):
             new_lines = [l + "  " for l in new_lines]       # plus trailing whitespace everywhere (blank lines too)
         new = "\n".join(new_lines) + "\n"
         shift = (q + 1, delta)
+    elif edit == "insert-comment-and-blank-inside-the-duplicate":
+        # two lines that are not code, between two statements of the duplicated block: the block still starts where it did
+        # and is still ONE finding per file (its stated length and the quoted ranges may grow: messages are not compared here)
+        if tname != "dup":
+            ctx.assume(False)
+        q = ctx.pick("insert_before_line", tuple(range(3, n + 1)))
+        ind = re.match(r"\s*", lines[q - 1]).group(0)
+        new = "\n".join(lines[:q - 1] + [ind + cm + " an unrelated remark", ""] + lines[q - 1:]) + "\n"
+        shift = (q + 2, 2)
+        dry_by_position = True
     elif edit == "trailing-whitespace":
         # blank lines get whitespace too (a whitespace-only line is still a blank line); add one blank line first
         k = max(2, len(lines) // 2)
@@ -224,6 +238,9 @@ def h_edits(ctx):
     after = _lint(edited, config)
     kb = _keys(base, main, None, with_col)
     ka = _keys(after, main, shift, with_col)
+    if dry_by_position:
+        kb = Counter({(k[0], k[1], k[2], None, "" if k[0].startswith("dry.") else k[4]): c for k, c in kb.items()})
+        ka = Counter({(k[0], k[1], k[2], None, "" if k[0].startswith("dry.") else k[4]): c for k, c in ka.items()})
     if edit == "rename-locals":       # messages that quote source text quote the new names
         ka = Counter({(k[0], k[1], k[2], k[3], _norm_names(k[4], used_table)): c for k, c in ka.items()})
         kb = Counter({(k[0], k[1], k[2], k[3], _norm_names(k[4], used_table)): c for k, c in kb.items()})    # a new name may be in use elsewhere already
